@@ -29,7 +29,10 @@ class ExtUserData:
         self.creatorID = chr(stream.get_int(1))
         self.reserved1B = stream.get_int(1)
         self.reserved2B = stream.get_int(2)
-        self.data = stream.get_mem(dataLength)
+        # The payload after the creator word may be empty.
+        self.data = b''
+        if dataLength != 0:
+            self.data = stream.get_mem(dataLength)
 
     def toJSON(self, config: Config) -> OrderedDict:
         out = OrderedDict()
